@@ -112,6 +112,11 @@ class MonitorHook:
         h[lock.oid] = n + 1
         if n == 0:
             self.havoc_assume(eng, lock)
+        else:
+            # taken again by its holder: fine for the re-entrant lock the constructor is obliged to create (C05 clause of __init__), a
+            # self-deadlock for a plain one
+            eng.oblige("%s/lock:nested-acquire-only-of-a-re-entrant-lock" % eng.cur_func, z3.BoolVal(lock.oid not in eng.state.ghost.get("plain_locks", set())),
+                       clause="a lock acquired while already held by the same thread is re-entrant", kind="discipline")
 
     def release(self, eng, lock, where):
         h = self.held(eng)
@@ -189,13 +194,26 @@ class MonitorHook:
 def install_threading(reg, hook_getter):
     """hook_getter() -> the MonitorHook of the running engine"""
     def new_lock(eng, args, kwargs, node, fr):
+        o = eng.new_obj(LOCK)
+        eng.state.ghost.setdefault("plain_locks", set()).add(o.oid)        # threading.Lock(): a second acquire by the holder blocks for ever
+        return o
+
+    def new_rlock(eng, args, kwargs, node, fr):
         return eng.new_obj(LOCK)
 
     def new_cond(eng, args, kwargs, node, fr):
         o = eng.new_obj(COND)
-        lk = eng.force(args[0]) if args else eng.new_obj(LOCK)
+        lk = eng.force(args[0]) if args else eng.new_obj(LOCK)               # Condition() makes its own RLock
         eng.state.heap[(o.oid, "lock")] = lk
         return o
+
+    def reentrant(eng, v):
+        """spec function: the lock behind v was created re-entrant (RLock(), Condition() or Condition(RLock()))"""
+        lk = lock_of(eng, v)
+        if lk is None:
+            return VBool(False)
+        return VBool(lk.oid not in eng.state.ghost.get("plain_locks", set()))
+    reg.spec_funcs["reentrant"] = reentrant
 
     def must_hold(eng, recv, what):
         lock = lock_of(eng, recv)
@@ -259,5 +277,5 @@ def install_threading(reg, hook_getter):
                   "notify_all": EnvSpec(returns=None, effect=cv_notify_all)})
     reg.add_class(ClassSpec(COND, fields={"lock": Obj(LOCK)}, env_methods=condm))
     reg.externals["threading.Lock"] = new_lock
-    reg.externals["threading.RLock"] = new_lock
+    reg.externals["threading.RLock"] = new_rlock
     reg.externals["threading.Condition"] = new_cond
